@@ -528,6 +528,10 @@ pub struct World {
 	/// report a wait-while-holding at the event itself (retrying collections)
 	pub check_hold_wait: Cell<bool>,
 	/// optional probe evaluated at every release of lock `probe_lock`: bit 0 of `probe_last` = result at the last release
+	/// optional environment action performed once while T0 waits for lock `wait_hook_lock` (e.g. the holder panics)
+	pub wait_hook: Cell<Option<fn(usize)>>,
+	pub wait_hook_arg: Cell<usize>,
+	pub wait_hook_lock: Cell<u8>,
 	pub probe_fn: Cell<Option<fn(usize) -> bool>>,
 	pub probe_arg: Cell<usize>,
 	pub probe_lock: Cell<u8>,
@@ -573,6 +577,9 @@ pub static WORLD: SyncWorld = SyncWorld(World {
 	wait_events: Cell::new(0),
 	hold_and_wait: Cell::new(0),
 	check_hold_wait: Cell::new(false),
+	wait_hook: Cell::new(None),
+	wait_hook_arg: Cell::new(0),
+	wait_hook_lock: Cell::new(NOID),
 	probe_fn: Cell::new(None),
 	probe_arg: Cell::new(0),
 	probe_lock: Cell::new(NOID),
@@ -615,6 +622,9 @@ impl World {
 		self.wait_events.set(0);
 		self.hold_and_wait.set(0);
 		self.check_hold_wait.set(false);
+		self.wait_hook.set(None);
+		self.wait_hook_arg.set(0);
+		self.wait_hook_lock.set(NOID);
 		self.probe_fn.set(None);
 		self.probe_arg.set(0);
 		self.probe_lock.set(NOID);
@@ -706,6 +716,11 @@ impl World {
 	}
 	/// environment answer for a lock T0 does not hold: true = somebody else holds it now
 	fn env_busy(&self, id: u8) -> bool {
+		#[cfg(verif_replay)]
+		if eng::mt::on() {
+			// multi-thread replay: the recorded answers of this thread's example path decide (the world is shared)
+			return any_bool(T_HAVOC | id as u32);
+		}
 		let left = self.interference_left.get();
 		if left == 0 {
 			return false;
@@ -719,6 +734,11 @@ impl World {
 	fn note_wait(&self, id: u8, shared: bool) {
 		self.wait_events.set(self.wait_events.get() + 1);
 		eng::event(E_WAIT, id as u32 | ((shared as u32) << 8), self.held_x.get() | (self.held_s.get() << 16));
+		if id == self.wait_hook_lock.get() {
+			if let Some(f) = self.wait_hook.take() {
+				f(self.wait_hook_arg.get());
+			}
+		}
 		if (self.held_x.get() | self.held_s.get()) & !self.wait_ok_mask.get() != 0 {
 			self.hold_and_wait.set(self.hold_and_wait.get() + 1);
 			if self.check_hold_wait.get() {
@@ -808,10 +828,6 @@ unsafe impl lock_api::RawMutex for AuditMutex {
 	type GuardMarker = lock_api::GuardSend;
 
 	fn lock(&self) {
-		#[cfg(verif_replay)]
-		if eng::mt::on() {
-			return eng::mt::acquire(self.id.get(), false);
-		}
 		let w = w();
 		let id = self.id.get();
 		w.pre_op(K_LOCK_X, id);
@@ -822,6 +838,10 @@ unsafe impl lock_api::RawMutex for AuditMutex {
 			ST_ENV => w.note_wait(id, false), // the holder releases eventually (premise), then granted
 			_ => {}
 		}
+		#[cfg(verif_replay)]
+		if eng::mt::on() {
+			eng::mt::acquire(id, false);
+		}
 		self.st.set(ST_T0);
 		w.held_x.set(w.held_x.get() | self.bit());
 		w.push_log(K_LOCK_X, id);
@@ -830,15 +850,16 @@ unsafe impl lock_api::RawMutex for AuditMutex {
 	}
 
 	fn try_lock(&self) -> bool {
-		#[cfg(verif_replay)]
-		if eng::mt::on() {
-			return eng::mt::try_acquire(self.id.get(), false);
-		}
 		let w = w();
 		let id = self.id.get();
 		w.pre_op(K_TRY_X, id);
 		self.havoc();
-		let ok = self.st.get() == ST_FREE;
+		#[allow(unused_mut)]
+		let mut ok = self.st.get() == ST_FREE;
+		#[cfg(verif_replay)]
+		if ok && eng::mt::on() {
+			ok = eng::mt::try_acquire(id, false);
+		}
 		if ok {
 			self.st.set(ST_T0);
 			w.held_x.set(w.held_x.get() | self.bit());
@@ -850,10 +871,6 @@ unsafe impl lock_api::RawMutex for AuditMutex {
 	}
 
 	unsafe fn unlock(&self) {
-		#[cfg(verif_replay)]
-		if eng::mt::on() {
-			return eng::mt::release(self.id.get(), false);
-		}
 		let w = w();
 		let id = self.id.get();
 		w.pre_op(K_UNLOCK_X, id);
@@ -861,6 +878,10 @@ unsafe impl lock_api::RawMutex for AuditMutex {
 		if self.st.get() != ST_T0 {
 			w.note_bad_release(K_UNLOCK_X, id);
 		} else {
+			#[cfg(verif_replay)]
+			if eng::mt::on() {
+				eng::mt::release(id, false);
+			}
 			self.st.set(ST_FREE);
 			w.held_x.set(w.held_x.get() & !self.bit());
 			w.push_log(K_UNLOCK_X, id);
@@ -940,10 +961,6 @@ unsafe impl lock_api::RawRwLock for AuditRwLock {
 	type GuardMarker = lock_api::GuardSend;
 
 	fn lock_shared(&self) {
-		#[cfg(verif_replay)]
-		if eng::mt::on() {
-			return eng::mt::acquire(self.id.get(), true);
-		}
 		let w = w();
 		let id = self.id.get();
 		w.pre_op(K_LOCK_S, id);
@@ -957,6 +974,10 @@ unsafe impl lock_api::RawRwLock for AuditRwLock {
 			w.note_wait(id, true);
 			self.x.set(ST_FREE);
 		}
+		#[cfg(verif_replay)]
+		if eng::mt::on() {
+			eng::mt::acquire(id, true);
+		}
 		self.s0.set(self.s0.get() + 1);
 		w.held_s.set(w.held_s.get() | self.bit());
 		w.push_log(K_LOCK_S, id);
@@ -965,15 +986,16 @@ unsafe impl lock_api::RawRwLock for AuditRwLock {
 	}
 
 	fn try_lock_shared(&self) -> bool {
-		#[cfg(verif_replay)]
-		if eng::mt::on() {
-			return eng::mt::try_acquire(self.id.get(), true);
-		}
 		let w = w();
 		let id = self.id.get();
 		w.pre_op(K_TRY_S, id);
 		self.havoc();
-		let ok = self.x.get() == ST_FREE;
+		#[allow(unused_mut)]
+		let mut ok = self.x.get() == ST_FREE;
+		#[cfg(verif_replay)]
+		if ok && eng::mt::on() {
+			ok = eng::mt::try_acquire(id, true);
+		}
 		if ok {
 			self.s0.set(self.s0.get() + 1);
 			w.held_s.set(w.held_s.get() | self.bit());
@@ -985,10 +1007,6 @@ unsafe impl lock_api::RawRwLock for AuditRwLock {
 	}
 
 	unsafe fn unlock_shared(&self) {
-		#[cfg(verif_replay)]
-		if eng::mt::on() {
-			return eng::mt::release(self.id.get(), true);
-		}
 		let w = w();
 		let id = self.id.get();
 		w.pre_op(K_UNLOCK_S, id);
@@ -996,6 +1014,10 @@ unsafe impl lock_api::RawRwLock for AuditRwLock {
 		if self.s0.get() == 0 {
 			w.note_bad_release(K_UNLOCK_S, id);
 		} else {
+			#[cfg(verif_replay)]
+			if eng::mt::on() {
+				eng::mt::release(id, true);
+			}
 			self.s0.set(self.s0.get() - 1);
 			if self.s0.get() == 0 {
 				w.held_s.set(w.held_s.get() & !self.bit());
@@ -1007,10 +1029,6 @@ unsafe impl lock_api::RawRwLock for AuditRwLock {
 	}
 
 	fn lock_exclusive(&self) {
-		#[cfg(verif_replay)]
-		if eng::mt::on() {
-			return eng::mt::acquire(self.id.get(), false);
-		}
 		let w = w();
 		let id = self.id.get();
 		w.pre_op(K_LOCK_X, id);
@@ -1023,6 +1041,10 @@ unsafe impl lock_api::RawRwLock for AuditRwLock {
 			w.note_wait(id, false);
 			self.se.set(0);
 		}
+		#[cfg(verif_replay)]
+		if eng::mt::on() {
+			eng::mt::acquire(id, false);
+		}
 		self.x.set(ST_T0);
 		w.held_x.set(w.held_x.get() | self.bit());
 		w.push_log(K_LOCK_X, id);
@@ -1031,15 +1053,16 @@ unsafe impl lock_api::RawRwLock for AuditRwLock {
 	}
 
 	fn try_lock_exclusive(&self) -> bool {
-		#[cfg(verif_replay)]
-		if eng::mt::on() {
-			return eng::mt::try_acquire(self.id.get(), false);
-		}
 		let w = w();
 		let id = self.id.get();
 		w.pre_op(K_TRY_X, id);
 		self.havoc();
-		let ok = self.x.get() == ST_FREE && self.s0.get() == 0 && self.se.get() == 0;
+		#[allow(unused_mut)]
+		let mut ok = self.x.get() == ST_FREE && self.s0.get() == 0 && self.se.get() == 0;
+		#[cfg(verif_replay)]
+		if ok && eng::mt::on() {
+			ok = eng::mt::try_acquire(id, false);
+		}
 		if ok {
 			self.x.set(ST_T0);
 			w.held_x.set(w.held_x.get() | self.bit());
@@ -1051,10 +1074,6 @@ unsafe impl lock_api::RawRwLock for AuditRwLock {
 	}
 
 	unsafe fn unlock_exclusive(&self) {
-		#[cfg(verif_replay)]
-		if eng::mt::on() {
-			return eng::mt::release(self.id.get(), false);
-		}
 		let w = w();
 		let id = self.id.get();
 		w.pre_op(K_UNLOCK_X, id);
@@ -1062,6 +1081,10 @@ unsafe impl lock_api::RawRwLock for AuditRwLock {
 		if self.x.get() != ST_T0 {
 			w.note_bad_release(K_UNLOCK_X, id);
 		} else {
+			#[cfg(verif_replay)]
+			if eng::mt::on() {
+				eng::mt::release(id, false);
+			}
 			self.x.set(ST_FREE);
 			w.held_x.set(w.held_x.get() & !self.bit());
 			w.push_log(K_UNLOCK_X, id);
